@@ -14,6 +14,14 @@ VERIF = os.path.dirname(os.path.dirname(os.path.abspath(__file__)))
 REPO = os.environ.get("VERIF_REPO", "/repo")
 GOVC = os.path.join(VERIF, "bin", "govc")
 ENV = dict(os.environ, GOFLAGS="-mod=mod", GOPROXY="off", GOSUMDB="off", GOTOOLCHAIN="local")
+# Every scratch copy compiles the module afresh (the cache key includes the
+# directory), and the shared Go build cache once filled the disk (> 100 GB).
+# Each invocation gets its own cache directory, removed when it ends; cleaning
+# a shared cache while parallel jobs build made their builds fail.
+import tempfile as _tf, atexit as _ae, shutil as _sh
+_CACHE = _tf.mkdtemp(prefix="govc-seed-gocache-")
+ENV["GOCACHE"] = _CACHE
+_ae.register(lambda: _sh.rmtree(_CACHE, ignore_errors=True))
 
 def sh(cmd, cwd, timeout=1800):
     p = subprocess.run(cmd, cwd=cwd, shell=True, capture_output=True, text=True, errors="replace", env=ENV, timeout=timeout)
@@ -40,12 +48,6 @@ def main():
     counter = [0]
     def one(d):
         name = os.path.basename(d)
-        with lock:
-            counter[0] += 1
-            if counter[0] % 20 == 1:
-                # every scratch copy compiles the module afresh: keep the Go build
-                # cache from filling the disk (it reached > 100 GB once)
-                sh("go clean -cache", VERIF)
         meta = json.load(open(os.path.join(d, "meta.json")))
         prop = meta["property"]
         tmp = tempfile.mkdtemp(prefix="govc-seed-")
@@ -139,10 +141,10 @@ def main():
         first = {}
         fr = os.path.join(VERIF, "seeded", "results_first_run.json")
         if os.path.exists(fr):
-            first = {r["change"]: r for r in json.load(open(fr))}
-            fr2 = os.path.join(VERIF, "seeded", "results_first_run_round2.json")
-            if os.path.exists(fr2):
-                first.update({r["change"]: r for r in json.load(open(fr2))})
+            import glob as _glob
+            for frn in sorted(_glob.glob(os.path.join(VERIF, "seeded", "results_first_run*.json"))):
+                for r in json.load(open(frn)):
+                    first.setdefault(r["change"], r)
             f.write("`first run` is the verdict of the checks as they stood BEFORE the change was seen (46 of 59 caught; C20-3 arrived later and was caught by the machinery as strengthened for C20-2); every change missed then led to a strengthened contract or engine fix, listed in DESIGN.md section 8.6.\n\n")
         f.write("| change | property | first run | now | tests still pass | demo fails on patched | obligations reported / note |\n|---|---|---|---|---|---|---|\n")
         for r in allres:
